@@ -15,6 +15,8 @@ from automata.fa.dfa import DFA
 from automata.fa.nfa import NFA
 
 from harness import gen, langoracle
+from harness import nfa_mutable as M
+from harness import dfa_query_lib3 as DL
 from harness.common import guarded, Ctx, Toks, call, dfa_plain, enc_dfa, enc_nfa, nfa_plain, toks
 from harness.dfaops_common import (check_valid, lang_mismatch, parse_canon, py_canon, render_block, render_subset)
 
@@ -24,10 +26,21 @@ RULE = ("cases = (conversion, options, source automaton); all NFAs with ε: 1 st
         "from_dfa on all DFAs ≤2 states; shaped random NFAs ≤5 states (ε-cycles, states without rows, empty target "
         "sets, unreachable parts, rows keyed by non-states, the 2ⁿ 'n-th symbol from the end' family); empty alphabet "
         "(exhaustive for ≤2 states + random); a single state with transitions={} (the len(states)<=1 exemption of "
-        "validate); sparse 8–12 state NFAs; non-trivial "
+        "validate); sparse 8–12 state NFAs; round 4: (i) determinisations with MORE THAN 128 subset states — n-th symbol "
+        "from the end for n = 8 (all options, with / without ε detours) and n = 9, rings of 129 and 130–200 states, random "
+        "sparse NFAs with 129–300 reachable subsets; (ii) the mutable-automata option: ONE live NFA built under "
+        "allow_mutable_automata=True from plain / ALIASED (one set object for equal target sets, final_states is states, "
+        "shared rows) / copied containers, a SEQUENCE of 3–6 conversions and reads on that same object (from_nfa in all "
+        "option combinations, eliminate_lambda, accepts_input, from_nfa → from_dfa twice, eliminate_lambda → from_nfa), "
+        "every result judged against the definition AS BUILT (frozen twin); bounded-exhaustive for 1-state {a,b} and every "
+        "4th 2-state {a} NFA; live DFAs under NFA.from_dfa; non-trivial "
         "= source has ≥2 states and a non-empty, non-universal language; distinct = distinct (conversion, options, source)")
 ASSUMPTIONS = [
     "sources are valid automata built through the real constructors",
+    "mutable-automata option (round 4): the option only changes the container types the constructor stores; the property "
+    "is read as 'the conversion of an object built from plain containers has the language of the definition it was "
+    "built with, whatever was called on the object before' — judged against a frozen twin; the model is asked only "
+    "while the live object still has that definition (stat mutable_option_definition_changed otherwise)",
     "input symbols are non-empty str (the typed domain AbstractSet[str]): the constructors refuse \"\" as an input "
     "symbol (InvalidSymbolError since /repo 07f4843, checked by a probe on every run) and None as a state name; the "
     "model types a transition label as `Option α` with ε = none, i.e. it reads the code's truthiness tests "
@@ -47,33 +60,51 @@ def nontrivial(src, n_states) -> bool:
             and langoracle.find_word([src], al, lambda v: not v[0]) is not None)
 
 
+def _live_view(live, ref, seq):
+    """(object the oracle and the model see, replay, message prefix, may the model be compared).
+    `ref` = the definition AS BUILT (frozen twin) of a LIVE object `live` on which a sequence `seq` of calls is
+    being made under allow_mutable_automata=True: the real call is made on the live object, every judgement
+    is about the twin.  The model is only asked while the live object still has the definition it was built with."""
+    if ref is None:
+        return live, None, "", True
+    pre = (f"under allow_mutable_automata=True ({seq['mode']} containers), call {len(seq['steps'])} on the same "
+           f"object {seq['steps']!r}: ")
+    return ref, dict(seq), pre, not M.drifted(live, ref)
+
+
 @guarded
-def do_from_nfa(ctx: Ctx, N: NFA, retain: bool, minify: bool, origin: str):
+def do_from_nfa(ctx: Ctx, N: NFA, retain: bool, minify: bool, origin: str, ref=None, seq=None):
+    """`ref`, `seq`: see _live_view.  Returns the real result (or None)."""
     drv = ctx.driver("drv_dfa_ops")
-    encN, st, sy = enc_nfa(N)
-    replay = dict(op="from_nfa", retain_names=retain, minify=minify, N=repr(N))
-    res = call(lambda: DFA.from_nfa(N, retain_names=retain, minify=minify))
+    encN, st, sy = enc_nfa(N)           # live iteration orders, taken before the call
+    live, (N, replay, pre, ask_model) = N, _live_view(N, ref, seq)
+    replay = replay or dict(op="from_nfa", retain_names=retain, minify=minify, N=repr(N))
+    res = call(lambda: DFA.from_nfa(live, retain_names=retain, minify=minify))
     ctx.stat(origin)
     ctx.stat(f"from_nfa_retain{int(retain)}_minify{int(minify)}")
     if res[0] == "err":
         ctx.case(None)
-        ctx.prop_fail(f"DFA.from_nfa raised {res[1]} on a valid NFA", replay)
-        return
+        ctx.prop_fail(pre + f"DFA.from_nfa(retain_names={retain}, minify={minify}) raised {res[1]} on a valid NFA "
+                      f"({len(N.states)} states)", replay)
+        return None
     R = res[1]
     ok = True
     bad = check_valid(R)
     if bad:
         ok = False
-        ctx.prop_fail(f"from_nfa: result does not validate ({bad})", replay)
-    elif R.input_symbols != N.input_symbols:
+        ctx.prop_fail(pre + f"from_nfa: result does not validate ({bad})", replay)
+    elif set(R.input_symbols) != set(N.input_symbols):
         ok = False
-        ctx.prop_fail("from_nfa: result alphabet differs", replay)
+        ctx.prop_fail(pre + "from_nfa: result alphabet differs", replay)
     else:
         w = lang_mismatch([N], R, N.input_symbols, lambda x: x)
         if w is not None:
             ok = False
-            ctx.prop_fail(f"from_nfa(retain_names={retain}, minify={minify}): DFA and NFA disagree on {w!r}", dict(replay, word=w))
-    ctx.case(("from_nfa", retain, minify, encN) if ok and nontrivial(N, len(N.states)) else None)
+            ctx.prop_fail(pre + f"from_nfa(retain_names={retain}, minify={minify}): DFA and NFA disagree on {w!r}", dict(replay, word=w))
+    ctx.case(("from_nfa", retain, minify, encN, seq["mode"] if seq else None) if ok and nontrivial(N, len(N.states)) else None)
+    if not ask_model:
+        ctx.stat("mutable_option_definition_changed")
+        return R
     if any("" in row for row in N.transitions.values()):
         ctx.stat("source_has_epsilon")
     line = drv.ask(toks("DFA_FROM_NFA", retain, minify, ctx.rng.randrange(1000), encN))
@@ -86,65 +117,78 @@ def do_from_nfa(ctx: Ctx, N: NFA, retain: bool, minify: bool, origin: str):
         ctx.sample(dict(N=repr(N), retain_names=retain, minify=minify, result=repr(R), canonical=imp))
     if ok and imp != mod:
         ctx.corr_diff("DFA_FROM_NFA", replay, imp, mod)
+    return R
 
 
 @guarded
-def do_from_dfa(ctx: Ctx, D: DFA, origin: str):
+def do_from_dfa(ctx: Ctx, D: DFA, origin: str, ref=None, seq=None):
     drv = ctx.driver("drv_dfa_ops")
     encD, st, sy = enc_dfa(D)
-    replay = dict(op="from_dfa", D=repr(D))
-    res = call(lambda: NFA.from_dfa(D))
+    live = D
+    if ref is not None:
+        pre = (f"under allow_mutable_automata=True ({seq['mode']} containers), call {len(seq['steps'])} of the "
+               f"sequence {seq['steps']!r}: ")
+        D, replay = ref, dict(seq)
+        ask_model = DL.definition_of(live) == DL.definition_of(ref)
+    else:
+        pre, replay, ask_model = "", dict(op="from_dfa", D=repr(D)), True
+    res = call(lambda: NFA.from_dfa(live))
     ctx.stat(origin)
     ctx.stat("from_dfa")
     if res[0] == "err":
         ctx.case(None)
-        ctx.prop_fail(f"NFA.from_dfa raised {res[1]}", replay)
-        return
+        ctx.prop_fail(pre + f"NFA.from_dfa raised {res[1]}", replay)
+        return None
     R = res[1]
     ok = True
     bad = check_valid(R)
     if bad:
         ok = False
-        ctx.prop_fail(f"from_dfa: result does not validate ({bad})", replay)
+        ctx.prop_fail(pre + f"from_dfa: result does not validate ({bad})", replay)
     else:
         w = lang_mismatch([D], R, D.input_symbols, lambda x: x)
         if w is not None:
             ok = False
-            ctx.prop_fail(f"from_dfa: NFA and DFA disagree on {w!r}", dict(replay, word=w))
-    ctx.case(("from_dfa", encD) if ok and nontrivial(D, len(D.states)) else None)
+            ctx.prop_fail(pre + f"from_dfa: NFA and DFA disagree on {w!r}", dict(replay, word=w))
+    ctx.case(("from_dfa", encD, seq["mode"] if seq else None) if ok and nontrivial(D, len(D.states)) else None)
+    if not ask_model:
+        ctx.stat("mutable_option_definition_changed")
+        return R
     line = drv.ask(toks("NFA_FROM_DFA", encD))
     mod = Toks(line[3:]).nfa()
     imp = nfa_plain(R, st, sy)
     if ok and imp != mod:
         ctx.corr_diff("NFA_FROM_DFA", replay, imp, mod)
+    return R
 
 
 @guarded
-def do_elim(ctx: Ctx, N: NFA, origin: str):
+def do_elim(ctx: Ctx, N: NFA, origin: str, ref=None, seq=None):
     drv = ctx.driver("drv_dfa_ops")
     encN, st, sy = enc_nfa(N)
-    replay = dict(op="eliminate_lambda", N=repr(N))
-    res = call(lambda: N.eliminate_lambda())
+    live, (N, replay, pre, ask_model) = N, _live_view(N, ref, seq)
+    replay = replay or dict(op="eliminate_lambda", N=repr(N))
+    res = call(lambda: live.eliminate_lambda())
     ctx.stat(origin)
     ctx.stat("eliminate_lambda")
     if res[0] == "err":
         ctx.case(None)
-        ctx.prop_fail(f"eliminate_lambda raised {res[1]}", replay)
-        return
+        ctx.prop_fail(pre + f"eliminate_lambda raised {res[1]}", replay)
+        return None
     R = res[1]
     ok = True
     bad = check_valid(R)
     if bad:
         ok = False
-        ctx.prop_fail(f"eliminate_lambda: result does not validate ({bad})", replay)
+        ctx.prop_fail(pre + f"eliminate_lambda: result does not validate ({bad})", replay)
     else:
         w = lang_mismatch([N], R, N.input_symbols, lambda x: x)
         if w is not None:
             ok = False
-            ctx.prop_fail(f"eliminate_lambda: result and source disagree on {w!r}", dict(replay, word=w))
+            ctx.prop_fail(pre + f"eliminate_lambda: result and source disagree on {w!r}", dict(replay, word=w))
         elif any("" in row for row in R.transitions.values()):   # EVERY row, also one keyed by a non-state
             ok = False
-            ctx.prop_fail("eliminate_lambda: an empty-string transition is left", replay)
+            ctx.prop_fail(pre + "eliminate_lambda: an empty-string transition is left", replay)
         else:
             seen = {R.initial_state}
             work = [R.initial_state]
@@ -157,13 +201,18 @@ def do_elim(ctx: Ctx, N: NFA, origin: str):
                             work.append(t)
             if set(R.states) - seen:
                 ok = False
-                ctx.prop_fail(f"eliminate_lambda: unreachable states left: {set(R.states) - seen!r}", replay)
-    ctx.case(("elim", encN) if ok and nontrivial(N, len(N.states)) and any("" in r for r in N.transitions.values()) else None)
+                ctx.prop_fail(pre + f"eliminate_lambda: unreachable states left: {set(R.states) - seen!r}", replay)
+    ctx.case(("elim", encN, seq["mode"] if seq else None)
+             if ok and nontrivial(N, len(N.states)) and any("" in r for r in N.transitions.values()) else None)
+    if not ask_model:
+        ctx.stat("mutable_option_definition_changed")
+        return R
     line = drv.ask(toks("NFA_ELIM", encN))
     mod = Toks(line[3:]).nfa()
     imp = nfa_plain(R, st, sy)
     if ok and imp != mod:
         ctx.corr_diff("NFA_ELIM", replay, imp, mod)
+    return R
 
 
 def nth_from_end_nfa(rng):
@@ -269,6 +318,227 @@ def big_nfa(rng):
     return N
 
 
+# ------------------------------------------------------------------ round 4: the mutable-automata option
+TEXTBOOK_AB = dict(states={0, 1, 2}, input_symbols={"a", "b"}, transitions={0: {"a": {0, 1}, "b": {0}}, 1: {"b": {2}}, 2: {}},
+                   initial_state=0, final_states={2})          # (a|b)*ab
+
+
+def _dfa_twin(d: DFA) -> DFA:
+    with M.mutable_option(False):
+        return d.copy()
+
+
+@guarded
+def run_mutable_sequence(ctx: Ctx, ref: NFA, mode: str, steps: list, origin: str):
+    """allow_mutable_automata=True: ONE live NFA built from plain (possibly shared) containers, a SEQUENCE of
+    conversions and reads on that same object; every result is judged against the definition AS BUILT (`ref`,
+    frozen twin).  Steps (JSON lists):
+      ["from_nfa", retain, minify]   DFA.from_nfa(N)                        = L(ref)
+      ["elim"]                       N.eliminate_lambda()                   = L(ref), no ε, all reachable
+      ["read", w]                    N.accepts_input(w)                     = table semantics of ref on w
+      ["roundtrip", retain, minify]  D = DFA.from_nfa(N); NFA.from_dfa(D) twice on the same D (judged against D as built)
+      ["elim_chain", retain, minify] E = N.eliminate_lambda(); DFA.from_nfa(E) (E may share containers with N)
+    The sequence stops at the first failing step (the object is not trustworthy afterwards)."""
+    keep: list = []
+    with M.mutable_option():
+        N = M.build_live(ref, mode, keep)
+        ctx.stat(f"mutable_option_sequence_{mode}")
+        if M.sharing_of(N):
+            ctx.stat("mutable_option_operand_with_shared_containers")
+        for i, step in enumerate(steps):
+            seq = dict(op="mutable_sequence", N=repr(ref), mode=mode, steps=[list(x) for x in steps[:i + 1]])
+            n0 = ctx.n_prop_fails
+            kind = step[0]
+            ctx.stat("mutable_option_step_" + kind)
+            if kind == "from_nfa":
+                do_from_nfa(ctx, N, bool(step[1]), bool(step[2]), origin, ref=ref, seq=seq)
+            elif kind == "elim":
+                do_elim(ctx, N, origin, ref=ref, seq=seq)
+            elif kind == "read":
+                w = step[1]
+                got = call(lambda: N.accepts_input(w))
+                m = langoracle.machine(ref)
+                S = m.start()
+                for a in w:
+                    S = m.step(S, a)
+                want = m.accepting(S)
+                ctx.case(None)
+                if got != ("ok", want):
+                    ctx.prop_fail(f"under allow_mutable_automata=True ({mode} containers), call {i + 1} on the same object "
+                                  f"{seq['steps']!r}: accepts_input({w!r}) is {got[1] if got[0] == 'ok' else 'raised ' + got[1]}, "
+                                  f"the transition tables as built say {want}; every later conversion of this object is "
+                                  f"judged on the same definition", dict(seq, word=w))
+            elif kind == "roundtrip":
+                D = do_from_nfa(ctx, N, bool(step[1]), bool(step[2]), origin, ref=ref, seq=seq)
+                if D is not None and ctx.n_prop_fails == n0:
+                    D0 = _dfa_twin(D)
+                    for _rep in range(2):
+                        do_from_dfa(ctx, D, origin, ref=D0, seq=seq)
+            elif kind == "elim_chain":
+                E = do_elim(ctx, N, origin, ref=ref, seq=seq)
+                if E is not None and ctx.n_prop_fails == n0:
+                    E0 = M.frozen_twin(E)
+                    do_from_nfa(ctx, E, bool(step[1]), bool(step[2]), origin, ref=E0, seq=seq)
+            else:
+                raise ValueError(f"unknown step {step!r}")
+            if ctx.n_prop_fails > n0:
+                return
+        if M.drifted(N, ref):
+            ctx.stat("mutable_option_definition_changed_at_end")
+        del keep
+
+
+def _random_steps(rng, ref: NFA, k: int) -> list:
+    al = sorted(ref.input_symbols)
+    steps = []
+    for _ in range(k):
+        q = rng.random()
+        r, m = rng.random() < 0.5, rng.random() < 0.5
+        if q < 0.45:
+            steps.append(["from_nfa", r, m])
+        elif q < 0.65:
+            steps.append(["elim"])
+        elif q < 0.8:
+            steps.append(["read", gen.rand_word(rng, al, 6) if al else ""])
+        elif q < 0.9:
+            steps.append(["roundtrip", r, m])
+        else:
+            steps.append(["elim_chain", r, m])
+    return steps
+
+
+def live_dfa_family(ctx: Ctx, n: int):
+    """NFA.from_dfa on a live DFA (plain / aliased / copied containers), several times on the same object,
+    interleaved with reads; judged against the DFA as built."""
+    rng = ctx.rng
+    for _ in range(n):
+        ref = gen.rand_dfa(rng, 5)
+        mode = rng.choice(DL.MUTABLE_MODES)
+        run_live_dfa(ctx, ref, mode, rng.randint(2, 3))
+
+
+@guarded
+def run_live_dfa(ctx: Ctx, ref: DFA, mode: str, k: int):
+    keep: list = []
+    with DL.mutable_option(mode):
+        D = DL.build_live(ref, mode, keep)
+        ctx.stat(f"mutable_option_live_dfa_{mode}")
+        steps = []
+        for i in range(k):
+            steps.append(["from_dfa"])
+            seq = dict(op="mutable_dfa_sequence", D=repr(ref), mode=mode, steps=list(steps), k=k)
+            n0 = ctx.n_prop_fails
+            do_from_dfa(ctx, D, "mutable_option", ref=ref, seq=seq)
+            if ctx.n_prop_fails > n0:
+                return
+            call(lambda: D.accepts_input("".join(sorted(ref.input_symbols))))
+
+
+def mutable_option_family(ctx: Ctx, n: int):
+    """Bounded-exhaustive part: every 1-state NFA over {a,b} and every 4th 2-state NFA over {a} (ε included), modes
+    plain and aliased, the fixed sequence from_nfa(F,F), elim, from_nfa(T,T), from_nfa(F,T), elim on ONE object.
+    Random part: shaped NFAs of ≤5 states (the generators of the main run), all five live modes, 3–6 random steps."""
+    rng = ctx.rng
+    fixed = [["from_nfa", False, False], ["elim"], ["from_nfa", True, True], ["from_nfa", False, True], ["elim"]]
+    with M.mutable_option(False):
+        run_mutable_sequence(ctx, NFA(**TEXTBOOK_AB), "plain", fixed, "mutable_option")
+        small = list(gen.all_nfas(1, ("a", "b"))) + list(gen.all_nfas(2, ("a",)))[::1 if ctx.thorough() else 4]
+    for N0 in small:
+        for mode in ("plain", "aliased"):
+            run_mutable_sequence(ctx, N0, mode, fixed, "mutable_option_exhaustive")
+    ctx.exhaustive("allow_mutable_automata=True: every 1-state NFA over {a,b} and " + ("every" if ctx.thorough() else "every 4th")
+                   + " 2-state NFA over {a}, built from plain and from aliased containers, the sequence from_nfa(F,F), "
+                   "eliminate_lambda, from_nfa(T,T), from_nfa(F,T), eliminate_lambda on ONE object, each result judged "
+                   "against the definition as built")
+    for _ in range(n):
+        k = rng.random()
+        ref = (nth_from_end_nfa(rng) if k < 0.08 else junk_row_nfa(rng) if k < 0.16 else empty_alphabet_nfa(rng) if k < 0.2
+               else M.pooled_nfa(rng, rng.choice(gen.ALPHABETS[:3]), 5, gen.name_pool(rng, 5) if rng.random() < 0.3 else None)
+               if k < 0.45 else gen.rand_nfa(rng, 5))
+        if len(ref.states) > 6:
+            continue
+        mode = M.pick_mode(rng)
+        run_mutable_sequence(ctx, ref, mode, _random_steps(rng, ref, rng.randint(3, 6)), "mutable_option")
+    live_dfa_family(ctx, max(n // 4, 1))
+
+
+# ------------------------------------------------------------------ round 4: more than 128 subset states
+def nth_from_end_exact(n: int, with_eps: bool = False) -> NFA:
+    """(a|b)* a (a|b)^(n-1): 2ⁿ reachable subset states; with_eps: every hop i → i+1 detours through an ε-move."""
+    tr = {0: {"a": {0, 1}, "b": {0}}}
+    states = set(range(n + 1))
+    for i in range(1, n):
+        if with_eps:
+            tr[i] = {"": {100 + i}}
+            tr[100 + i] = {"a": {i + 1}, "b": {i + 1}}
+            states.add(100 + i)
+        else:
+            tr[i] = {"a": {i + 1}, "b": {i + 1}}
+    tr[n] = {}
+    return NFA(states=states, input_symbols={"a", "b"}, transitions=tr, initial_state=0, final_states={n})
+
+
+def ring_nfa(m: int, names=None, eps_every: int = 3) -> NFA:
+    """'The length is a multiple of m': a ring of m states (m reachable subset states, all singletons or ε-closed
+    pairs), every `eps_every`-th hop through an extra state and an ε-move; the last state closes the ring, i.e. the
+    subset construction meets an edge back to the FIRST subset state it named after naming all the others."""
+    nm = names or (lambda i: i)
+    tr, states = {}, set()
+    for i in range(m):
+        nxt = nm((i + 1) % m)
+        states.add(nm(i))
+        if eps_every and i % eps_every == 1:
+            mid = nm(1000 + i)
+            tr[nm(i)] = {"a": {mid}, "b": {mid}}
+            tr[mid] = {"": {nxt}}
+            states.add(mid)
+        else:
+            tr[nm(i)] = {"a": {nxt}, "b": {nxt}}
+    return NFA(states=states, input_symbols={"a", "b"}, transitions=tr, initial_state=nm(0), final_states={nm(0)})
+
+
+def many_subsets_nfa(rng, lo: int = 129, hi: int = 300):
+    """A sparse random NFA of 8–12 states whose subset construction has between lo and hi reachable states
+    (rejection sampling over big_nfa; about 1 in 60 qualifies)."""
+    for _ in range(1500):
+        N = big_nfa(rng)
+        if lo <= _subset_count(N, hi + 2) <= hi:
+            return N
+    return None
+
+
+def many_subsets_family(ctx: Ctx):
+    """Determinisations with MORE THAN 128 (and up to a few hundred) subset states — beyond every small cache / table
+    size (functools.lru_cache default 128, CPython small-int cache 256): 'n-th symbol from the end' for n = 8 (256
+    subsets; all option combinations, with and without ε detours) and n = 9 (512; unminimised), rings of 129 and of
+    130–200 states, random sparse NFAs of 8–12 states with 129–300 reachable subsets.  Judged like every other case
+    (validity, alphabet, complete product search against the source, exact comparison with the model)."""
+    rng = ctx.rng
+    opts = [(r, m) for r in (False, True) for m in (False, True)]
+    cases = [(nth_from_end_exact(8), opts), (nth_from_end_exact(8, True), [(False, False), (False, True)]),
+             (nth_from_end_exact(9), opts if ctx.thorough() else [(False, False)]),
+             (ring_nfa(129), [(False, False), (False, True), (True, False)]),
+             (ring_nfa(rng.randint(130, 200), eps_every=rng.choice([0, 2, 3, 5])), [(False, False), (False, True)]),
+             (ring_nfa(rng.randint(129, 160), names=lambda i: f"s{i}"), [(False, rng.random() < 0.5)])]
+    for _ in range(ctx.budget(3, 40)):
+        N = many_subsets_nfa(rng)
+        if N is not None:
+            cases.append((N, [(False, rng.random() < 0.5), (rng.random() < 0.5, rng.random() < 0.5)]))
+    if ctx.thorough():
+        cases += [(ring_nfa(m), [(False, False), (False, True)]) for m in (128, 130, 256, 257, 300)]
+    for N, combos in cases:
+        c = _subset_count(N, 2000)
+        ctx.stat("subset_states_gt128" if c > 128 else "subset_states_le128")
+        ctx.stat("subset_states_gt256" if c > 256 else "subset_states_le256")
+        for r, m in combos:
+            D = do_from_nfa(ctx, N, r, m, "more_than_128_subset_states")
+            if D is not None and not m and len(D.states) not in (c, c + 1):
+                # not part of the property (languages); the unminimised result is the reachable part of the subset
+                # automaton (+ possibly the empty subset as a trap) — reported as a correspondence difference only
+                ctx.corr_diff("DFA_FROM_NFA state count", dict(N=repr(N), retain_names=r, minify=m),
+                              len(D.states), f"{c} reachable non-empty subsets")
+
+
 def probe_reserved_names(ctx: Ctx):
     """The domain assumption 'symbols are non-empty str' is enforced by the constructors."""
     r = call(lambda: NFA(states={0}, input_symbols={"", "a"}, transitions={0: {}}, initial_state=0, final_states=set()))
@@ -351,6 +621,10 @@ def run(ctx: Ctx):
         r, m = opts[rng.randrange(4)]
         do_from_nfa(ctx, N, r, m, "big_8_to_12_states")
         do_elim(ctx, N, "big_8_to_12_states")
+    # round 4: determinisations with more than 128 subset states
+    many_subsets_family(ctx)
+    # round 4: the mutable-automata option — sequences of calls on ONE object built from plain / shared containers
+    mutable_option_family(ctx, ctx.budget(300, 3000))
 
 
 def search(ctx: Ctx):
@@ -364,13 +638,19 @@ def search(ctx: Ctx):
             do_from_nfa(ctx, N, r, m, "search")
         do_elim(ctx, N, "search")
         do_from_dfa(ctx, gen.rand_dfa(rng, 6), "search")
+    if not ctx.n_prop_fails:
+        mutable_option_family(ctx, ctx.budget(1500, 6000))
 
 
 def replay(ctx: Ctx, path: str) -> int:
     data = json.load(open(path))
     rp = data.get("replay", data)
     env = {"DFA": DFA, "NFA": NFA, "frozenset": frozenset}
-    if rp["op"] == "from_nfa":
+    if rp["op"] == "mutable_sequence":
+        run_mutable_sequence(ctx, eval(rp["N"], env), rp["mode"], rp["steps"], "replay")
+    elif rp["op"] == "mutable_dfa_sequence":
+        run_live_dfa(ctx, eval(rp["D"], env), rp["mode"], rp.get("k", len(rp["steps"])))
+    elif rp["op"] == "from_nfa":
         do_from_nfa(ctx, eval(rp["N"], env), rp["retain_names"], rp["minify"], "replay")
     elif rp["op"] == "from_dfa":
         do_from_dfa(ctx, eval(rp["D"], env), "replay")
